@@ -12,6 +12,8 @@
 //   drv_threaded_frames seek <ktotal> <first_frame> <nframes> <nw> <ordered>
 //        full Exec including the seek loop; prints the evaluated absolute frames
 #include <fstream>
+#include <functional>
+#include <unistd.h>
 #include <iostream>
 #include <set>
 #include <sstream>
@@ -225,6 +227,11 @@ struct RunResult {
   std::vector<long> evalAbs;
 };
 
+static void print_run(const struct RunResult &r, std::ostream &out, bool with_steps);
+static std::function<void(const struct RunResult &)> g_abort_printer;   // set by the mode (batch / explore)
+
+static RunResult collect(int rc, const std::string &err);
+
 static RunResult run_once(int nw, int ktotal, int first_frame, long budget, bool ordered,
                           const std::vector<int> &script, int fallback, unsigned long seed) {
   G = Shared();
@@ -237,6 +244,17 @@ static RunResult run_once(int nw, int ktotal, int first_frame, long budget, bool
   S.active = false;
   S.naming = [&](int t, int k, const void *o, long a) { return app.naming(t, k, o, a); };
   S.snapshot = [&]() { return app.snapshot(nw); };
+  std::streambuf *old = std::cout.rdbuf();
+  std::streambuf *olde = std::cerr.rdbuf();
+  S.on_abort = [&]() {
+    // deadlock / script mismatch: every thread is parked; report and leave the process
+    std::cout.rdbuf(old);
+    std::cerr.rdbuf(olde);
+    RunResult r = collect(-1, S.error);
+    if (g_abort_printer) g_abort_printer(r);
+    std::cout.flush();
+    _exit(0);
+  };
   std::vector<std::string> args = {"drv", "--top", "x.vtop", "--trj", "x.vtrj", "--nt", std::to_string(nw),
                                    "--first-frame", std::to_string(first_frame)};
   if (budget >= 0) {
@@ -245,28 +263,31 @@ static RunResult run_once(int nw, int ktotal, int first_frame, long budget, bool
   }
   std::vector<char *> argv;
   for (auto &a : args) argv.push_back(const_cast<char *>(a.c_str()));
-  std::streambuf *old = std::cout.rdbuf();
-  std::streambuf *olde = std::cerr.rdbuf();
   std::ostringstream sink, esink;
   std::cout.rdbuf(sink.rdbuf());
   std::cerr.rdbuf(esink.rdbuf());
-  RunResult r;
-  r.rc = app.Exec((int)argv.size(), argv.data());
+  int rc = app.Exec((int)argv.size(), argv.data());
   std::cout.rdbuf(old);
   std::cerr.rdbuf(olde);
   S.active = false;
+  return collect(rc, S.error.empty() ? esink.str() : S.error);
+}
+
+static RunResult collect(int rc, const std::string &err) {
+  RunResult r;
+  r.rc = rc;
   r.steps = S.steps;
   r.deadlock = S.deadlock;
   r.mismatch = S.script_mismatch;
   r.bad = S.bad_unlock;
-  r.error = S.error.empty() ? esink.str() : S.error;
+  r.error = err;
   r.max_rdr = G.max_in_reader;
   r.max_merge = G.max_in_merge;
   r.evalAbs = G.evalAbs;
   return r;
 }
 
-static void print_run(const RunResult &r, std::ostream &out, bool with_steps = true) {
+static void print_run(const RunResult &r, std::ostream &out, bool with_steps) {
   for (size_t i = 0; with_steps && i < r.steps.size(); ++i) {
     const auto &s = r.steps[i];
     out << "{\"e\":\"step\",\"n\":" << i << ",\"t\":" << s.thread << ",\"op\":{\"k\":\"" << s.op.k << "\",\"o\":\""
@@ -307,10 +328,11 @@ static int do_run_line(std::istringstream &in) {
     fallback = 1;
     seed = std::stoul(arg);
   }
-  RunResult r = run_once(nw, k, 0, budget, ordered != 0, script, fallback, seed);
   std::cout << "{\"e\":\"begin\",\"nw\":" << nw << ",\"k\":" << k << ",\"b\":" << budget << ",\"ord\":"
             << (ordered ? "true" : "false") << "}\n";
-  print_run(r, std::cout);
+  g_abort_printer = [](const RunResult &r) { print_run(r, std::cout, true); };
+  RunResult r = run_once(nw, k, 0, budget, ordered != 0, script, fallback, seed);
+  print_run(r, std::cout, true);
   return 0;
 }
 
@@ -334,9 +356,10 @@ int main(int argc, char **argv) {
         long budget;
         unsigned long seed;
         in >> ktotal >> ff >> budget >> nw >> ordered >> seed;
-        RunResult r = run_once(nw, ktotal, ff, budget, ordered != 0, {}, 1, seed);
+        g_abort_printer = [](const RunResult &r) { print_run(r, std::cout, false); };
         std::cout << "{\"e\":\"seek\",\"total\":" << ktotal << ",\"ff\":" << ff << ",\"b\":" << budget << ",\"nw\":" << nw
                   << ",\"ord\":" << (ordered ? "true" : "false") << "}\n";
+        RunResult r = run_once(nw, ktotal, ff, budget, ordered != 0, {}, 1, seed);
         print_run(r, std::cout, false);
       }
     }
@@ -347,7 +370,7 @@ int main(int argc, char **argv) {
     long budget = std::stol(argv[4]);
     unsigned long seed = argc > 7 ? std::stoul(argv[7]) : 1;
     RunResult r = run_once(nw, ktotal, ff, budget, ordered != 0, {}, 1, seed);
-    print_run(r, std::cout);
+    print_run(r, std::cout, true);
     return 0;
   }
   if (cmd == "explore") {
@@ -362,6 +385,13 @@ int main(int argc, char **argv) {
     while (!stack.empty() && runs < maxruns && !trouble) {
       std::vector<int> prefix = stack.back();
       stack.pop_back();
+      g_abort_printer = [](const RunResult &r) {
+        std::cout << "{\"e\":\"trouble\",\"prefix\":[";
+        for (size_t i = 0; i < r.steps.size(); ++i) std::cout << (i ? "," : "") << r.steps[i].thread;
+        std::cout << "]}\n";
+        print_run(r, std::cout, true);
+        std::cout << "{\"e\":\"explored\",\"runs\":0,\"states\":0,\"transitions\":0,\"complete\":false}" << std::endl;
+      };
       RunResult r = run_once(nw, k, 0, budget, ordered != 0, prefix, 0, 0);
       ++runs;
       std::vector<int> choices;
@@ -395,7 +425,7 @@ int main(int argc, char **argv) {
         std::cout << "{\"e\":\"trouble\",\"prefix\":[";
         for (size_t i = 0; i < choices.size(); ++i) std::cout << (i ? "," : "") << choices[i];
         std::cout << "]}\n";
-        print_run(r, std::cout);
+        print_run(r, std::cout, true);
       }
     }
     std::cout << "{\"e\":\"explored\",\"runs\":" << runs << ",\"states\":" << states.size() << ",\"transitions\":"
